@@ -4,7 +4,7 @@ from __future__ import annotations
 import ast
 import copy
 
-from ..astutil import attr_chain, call_method, enum_member, short, src, ancestors, kwarg
+from ..astutil import clone, attr_chain, call_method, enum_member, short, src, ancestors, kwarg
 from ..linear import Normaliser, Sym, relation, same_relation
 from ..model import walk_local, AnalysisError
 from ..report import Ctx
@@ -298,7 +298,7 @@ def _check(ctx: Ctx) -> None:
                 otherb = a.orelse if in_body else a.body
                 # (the other side need not `continue`: whatever it does, it does not reach this emission)
                 if not any(isinstance(x, ast.Raise) for y in otherb for x in ast.walk(y)):
-                    leave.append((_Canon().visit_UnaryOp(ast.UnaryOp(op=ast.Not(), operand=copy.deepcopy(a.test))) if in_body else a.test, a))
+                    leave.append((_Canon().visit_UnaryOp(ast.UnaryOp(op=ast.Not(), operand=clone(a.test))) if in_body else a.test, a))
             child = a
         skips = [(t, s_) for t, s_ in leave if bt in {x.id for x in ast.walk(t) if isinstance(x, ast.Name)}]
         g = [(t, s_) for t, s_ in skips if relation(t, Normaliser()) is not None and same_relation(relation(t, Normaliser()), Sym.atom(bt), ">")]
